@@ -9,6 +9,9 @@ IFC = "acnportal.acnsim.interface.Interface."
 IIC = "acnportal.acnsim.interface.InfrastructureInfo."
 INFRA = [IFC + "_infrastructure_info", IFC + "infrastructure_info", IIC + "__init__", IIC + "get_station_index"]
 ACCESSORS = [IFC + "max_pilot_signal", IFC + "min_pilot_signal", IFC + "evse_voltage", IFC + "evse_phase", IFC + "remaining_amp_periods"]
+OBSERVE = ["acnportal.acnsim.network.charging_network.ChargingNetwork.active_evs", "acnportal.acnsim.simulator.Simulator.get_active_evs",
+           "acnportal.acnsim.simulator.Simulator.index_of_evse", IFC + "_active_sessions", IFC + "active_sessions", IFC + "last_actual_charging_rate",
+           IFC + "last_applied_pilot_signals", IFC + "current_time", IFC + "current_datetime", IFC + "period", IFC + "get_prev_peak"]
 SORTMOD = "acnportal.algorithms.sorted_algorithms."
 SORTFNS = [SORTMOD + f for f in ("first_come_first_served", "last_come_first_served", "earliest_deadline_first", "least_laxity_first",
                                  "largest_remaining_processing_time")]
@@ -55,46 +58,63 @@ PLAN = {
     "C02": dict(
         level="other",
         functions=BATTERY_FNS + [E + "EV.charge", E + "EV.reset"] + SET_PILOT + [NET + "update_pilots", NET + "current_charging_rates",
-                                                                                   SIM + "_store_actual_charging_rates"],
+                                                                                   SIM + "_store_actual_charging_rates", SIM + "run"],
         bounded=[dict(module="rt.drivers", fn="sim_monitor", label="whole-simulation ledger clauses"),
                  dict(module="rt.drivers", fn="stochastic_sim_monitor", label="ledger clauses with early departure (StochasticNetwork)")],
-        text="PROVED additionally: current_charging_rates[k] = the occupant's current rate, 0 if vacant, in station order; "
-             "_store_actual_charging_rates writes exactly that vector into column t (every other cell unchanged, new columns 0) and sets peak = "
-             "max(peak, sum of the vector) (Sum theory); update_pilots keeps every valid battery valid. "
-             "PROVED (all inputs, no bound): every battery charge variant updates the stored charge by exactly rate x V/1000 x period/60 "
-             "for the rate it returns; EV.charge adds the same energy to the session's delivered energy and records the rate; the EV "
-             "invariant 'delivered = battery charge - initial charge' is preserved by charge and re-established by reset; set_pilot "
-             "performs exactly one charge of the occupant (and none when vacant or rejected). BOUNDED (run-time contracts on the real "
-             "Simulator over seeded scenarios): the accumulation over a run - delivered = sum over connected periods of recorded rate x "
-             "V x dt = battery gain, vacant => recorded 0, peak = max aggregate current, total energy = integral of aggregate power, "
-             "analysis totals.",
-        note="floats as reals in the proved part; the accumulation over Simulator.run (numpy column writes) is only monitored, with the "
-             "bound stated in the evidence; an EV's battery has no other owner during a run",
-        explanation="proved: per-call ledger contracts of battery/EV/EVSE; bounded: whole-run accumulation clauses via rt.simcheck",
-        technique="contract-based deductive verification of the per-call ledger (pyvc, z3) + run-time contract monitor (bounded) for the run-level sums",
+        text="PROVED (all inputs, all histories; no bound): (1) per call - every battery charge variant updates the stored charge by exactly rate x V/1000 x "
+             "period/60 for the rate it returns; EV.charge adds the same energy to the session's delivered energy and records the rate; the EV invariant "
+             "'delivered = battery charge - initial charge' is preserved by charge and re-established by reset; set_pilot performs exactly one charge of "
+             "the occupant (none when vacant or rejected). (2) per network sweep - ChargingNetwork.update_pilots (loop invariant): every connected EV gains "
+             "exactly its new rate x its station's voltage x dt, once; EVs that are not connected gain nothing and keep their recorded rate (no EV is at two "
+             "stations: an occupant carries its station's id). (3) per period of Simulator.run, as clauses of the run loop's step contract (one arbitrary "
+             "iteration from the inductive invariant, i.e. every period of every run): column t of charging_rates records, for every station, what its "
+             "occupant actually drew and 0 for a vacant station; the energy a connected session gained in the period is that recorded rate x station "
+             "voltage x period length; sessions that are not connected gain nothing; every earlier column is left untouched; peak = max(previous peak, "
+             "aggregate current of the period). current_charging_rates / _store_actual_charging_rates: whole-matrix postconditions (Sum theory). BOUNDED "
+             "(run-time contracts on the real Simulator over seeded scenarios): the closed sums over a whole run - delivered = sum over connected periods of "
+             "recorded rate x V x dt = battery gain, peak = max over periods, total energy = integral of aggregate power, analysis totals - which follow from "
+             "the per-period clauses by induction over the periods (the telescoping itself is not restated as an obligation), and the battery side of the "
+             "per-period equality (needs 'no two EVs share a battery', A-OWN).",
+        note="floats as reals; the per-period ledger is proved inside the same run-loop proof as C01 (needs the occupancy invariant 'an occupant carries "
+             "its station's id'); an EV's battery has no other owner during a run (A-OWN); the scheduler is an assumed contract",
+        explanation="proved: per-call ledger contracts of battery/EV/EVSE, the network sweep, and the per-period ledger clauses of the run loop's step contract; "
+                    "bounded: closed whole-run sums via rt.simcheck",
+        technique="contract-based deductive verification: per-call ledger, loop invariant of the network sweep, per-iteration step contract of the run loop (pyvc, z3) "
+                  "+ run-time contract monitor (bounded) for the closed whole-run sums",
     ),
     "C01": dict(
         level="other",
         functions=[SIM + "run", SIM + "_process_event", NET + "plugin", NET + "unplug", NET + "get_ev", S + "BaseEVSE.plugin", S + "BaseEVSE.unplug",
                    EVT + "PluginEvent.__init__", EVT + "UnplugEvent.__init__", EVT + "RecomputeEvent.__init__", EVT + "Event.__lt__",
-                   EQ + "get_current_events", EQ + "add_event", EQ + "get_event", EQ + "empty"],
+                   EQ + "get_current_events", EQ + "add_event", EQ + "get_event", EQ + "empty", NET + "post_charging_update"],
         bounded=[dict(module="rt.drivers", fn="sim_monitor", label="lifecycle clauses on whole simulations")],
-        text="PROVED (all networks, event sets, max_recompute values; no bound): the main loop of Simulator.run is verified against an inductive "
-             "invariant - every pending event is not in the past, pending plug-ins describe valid sessions, queue/registry representation "
-             "invariants - and a per-iteration step contract: the period counter advances by exactly one, the events of the period are popped "
-             "(all with timestamp = the period) recorded in history and applied in queue order (unplug < plug-in < recompute by the queue "
-             "contract of C11) before the scheduler precondition 'no event of this period is pending'; _process_event: a plug-in attaches the EV "
-             "to its station, records it and schedules exactly one fresh Unplug at ev.departure; an unplug vacates the station iff the session "
-             "matches; network plugin/unplug/get_ev with KeyError / StationOccupiedError frames; on normal return the queue is empty, nothing is "
-             "owed and the last recorded event is one period before the final counter. NOT PROVED: absence of StationOccupiedError for "
-             "non-overlapping sessions and termination (the occupancy <-> pending-unplug invariant I3/I4 of DESIGN 6 was not attempted); these "
-             "and the end-to-end lifecycle clauses are covered by the BOUNDED run-time monitor only.",
-        note="update_pilots / _update_schedules / _store_actual_charging_rates / _increase_width enter the loop proof through frame-only "
-             "contracts (what they may modify); the scheduler is an assumed contract (user code); events are not mutated while queued; "
-             "verbose=False (printing is not modelled)",
-        explanation="proved: run-loop invariant + step contract, _process_event, network plug/unplug, queue contracts; bounded: exception freedom, "
-                    "termination and the end-to-end lifecycle clauses (rt.simcheck C01.*)",
-        technique="contract-based deductive verification of the run loop (loop invariant + per-iteration step contract, pyvc/z3) + run-time contract monitor (bounded)",
+        text="PROVED (all networks, all finite sets of valid non-overlapping sessions, all max_recompute values; every history, no bound): the main loop "
+             "of Simulator.run is verified against an inductive invariant and a per-iteration step contract. Invariant (over the pending multiset = "
+             "queue bag, and inside the per-period loop queue bag + the not-yet-processed suffix of the popped events): every pending event is not "
+             "in the past; pending plug-ins describe valid sessions on registered stations; pending events carry the precedence of their type; EVERY "
+             "OCCUPANT OF A STATION HAS ITS UNPLUG EVENT PENDING AT ITS DEPARTURE (Hilbert-choice witness function per state); no plug-in is pending "
+             "on a station before its occupant leaves; pending plug-ins on one station do not overlap and are not duplicated; among the events of "
+             "one period no unplug follows a plug-in (from the queue's time-then-precedence order, C11). From it, as named obligations at the call "
+             "site: processing an event NEVER raises StationOccupiedError or KeyError (back-to-back reuse of a space included), and the loop "
+             "TERMINATES (ranking function: horizon bound - period while events are pending, then at most the one owed schedule). Step contract: the "
+             "period counter advances by exactly one, the events of the period are popped (all with timestamp = the period), recorded in history and "
+             "applied in queue order before the scheduler precondition 'no event of this period is pending'. _process_event: a plug-in attaches the EV "
+             "to its station, records it and schedules exactly one fresh Unplug (precedence 0) at ev.departure, every other station keeps its "
+             "occupant; an unplug vacates the station iff the session matches and never another one; network plugin/unplug/get_ev with KeyError / "
+             "StationOccupiedError frames; on normal return the queue is empty, nothing is owed and the last event was one period before the final "
+             "counter. BOUNDED: the end-to-end lifecycle clauses on whole simulations (each session connected in exactly [arrival, departure), every "
+             "station vacated at the end) - a corollary of the proved invariant not restated as one obligation.",
+        note="update_pilots / _update_schedules / _store_actual_charging_rates / _increase_width enter the loop proof through their contracts (C04 / C02); "
+             "the scheduler is an assumed contract (user code); events are not mutated while queued; verbose=False (printing is not modelled); the horizon "
+             "bound is a ghost parameter of run (a finite queue has a largest timestamp / departure); definitional axioms (choice function, recursive "
+             "definition of cnt) are assumed where the invariant is assumed or proved (dsl.Given); distinct sessions with equal session ids on one "
+             "station are outside the precondition",
+        explanation="proved: run-loop invariant incl. occupancy <-> pending-unplug, exception freedom of event processing, termination, step contract, "
+                    "_process_event, network plug/unplug, queue contracts; bounded: end-to-end lifecycle clauses (rt.simcheck C01.*)",
+        technique="contract-based deductive verification of the run loop (inductive invariant over the pending multiset with a choice-function witness, ranking "
+                  "function, per-iteration step contract; pyvc/z3) + run-time contract monitor (bounded)",
+        trusted=["A-FIN: a finite event queue has a horizon bound (ghost parameter of run)",
+                 "definitional axioms: Hilbert choice function for 'the pending unplug of an occupant'; cnt over list prefixes is defined by recursion (A-LIB)"],
     ),
     "C04": dict(
         level="other",
@@ -119,7 +139,7 @@ PLAN = {
     ),
     "C05": dict(
         level="other",
-        functions=[SIM + "run", SIM + "_process_event"] + INFRA + ACCESSORS,
+        functions=[SIM + "run", SIM + "_process_event"] + INFRA + ACCESSORS + OBSERVE,
         bounded=[dict(module="rt.drivers", fn="sim_monitor", label="scheduler invocation / observation / isolation clauses")],
         text="PROVED (all event histories, all max_recompute values, every period; no bound): per-iteration step contract of Simulator.run over a "
              "ghost log of scheduler invocations - the scheduler is invoked in a period if and only if an event was processed in it, or a schedule "
@@ -133,12 +153,22 @@ PLAN = {
              "constraint-free network) and which satisfies the shape / station-index invariant; InfrastructureInfo.__init__ stores its arguments, builds "
              "the station index dictionary (dict comprehension) and raises ValueError exactly when the shapes are inconsistent; max_pilot_signal, "
              "min_pilot_signal, evse_voltage, evse_phase return the network's entry at the station's registration position (KeyError exactly for an "
-             "unknown station); remaining_amp_periods = (requested - delivered) x 1000 / voltage x 60 / period. BOUNDED: what the scheduler observes through Interface (period, datetime, active "
-             "sessions, previous rates/pilots/peak, infrastructure, advertised limits) and isolation (everything handed out is scribbled over, the "
-             "simulator state digest must not change) are checked by the run-time monitor at every invocation of every seeded scenario.",
-        note="the Interface accessors (deepcopy, numpy, SessionInfo construction) are not under deductive contract yet: observation and isolation "
-             "clauses are bounded; the scheduler itself is an assumed contract",
-        explanation="proved: invocation condition / once per period / after the period's events (run-loop step contract); bounded: observed values and isolation (rt.simcheck C05.*)",
+             "unknown station); remaining_amp_periods = (requested - delivered) x 1000 / voltage x 60 / period. PROVED additionally (what the scheduler "
+             "observes, every accessor from its source): ChargingNetwork.active_evs lists exactly the occupants whose remaining demand exceeds 1e-3 kWh, once "
+             "each, in station registration order; Simulator.get_active_evs returns FRESH copies (fresh batteries too) carrying the same session data, the "
+             "originals untouched (frame obligations); Interface._active_sessions / active_sessions return fresh SessionInfo records - exactly one per connected, "
+             "not-yet-satisfied session, in station order, each with that session's TRUE station id, session id, requested and delivered energy, arrival, "
+             "departure, estimated departure and the current period; last_actual_charging_rate maps exactly those sessions' ids to the rate each drew in the "
+             "previous period; last_applied_pilot_signals is empty in the first two periods and afterwards maps the active sessions that had arrived to "
+             "pilot_signals[station row, t-1]; current_time / period / get_prev_peak / current_datetime (= start + t x period) return the simulator's values; "
+             "at the scheduler call site in run the well-formedness these accessors need (every connected EV carries its station's id) is discharged from the "
+             "loop invariant. BOUNDED: isolation against arbitrary mutation (everything handed out is scribbled over, the simulator state digest must not "
+             "change) and the observations re-checked natively at every invocation of every seeded scenario.",
+        note="the scheduler itself is an assumed contract; the observation accessors require: connected sessions have distinct session ids and departure / "
+             "estimated departure after arrival (type invariant of valid sessions, not carried by the run-loop invariant); deepcopy per A-LIB (fresh, "
+             "structurally equal, no sharing); comprehension bodies that construct objects are lifted to fresh objects NEW(i)",
+        explanation="proved: invocation condition / once per period / after the period's events (run-loop step contract), infrastructure description and every "
+                    "observation accessor (fresh, true, complete); bounded: isolation under arbitrary mutation and native re-observation (rt.simcheck C05.*)",
         technique="contract-based deductive verification of the invocation condition (ghost call log, loop step contract, pyvc/z3) + run-time contract monitor (bounded) for observations and isolation",
     ),
     "C09": dict(
